@@ -12,10 +12,9 @@ import vlib
 
 PROPERTIES = ["C06", "C07", "C16"]
 
-# every replayed behaviour is continued by this many epoch-closing blocks, so that whatever it registered
-# last (opt-out, replaced-key pruning, undelegation hold) matures inside the behaviour: the largest
-# EpochsUntilUnbonded the generation configs reach (NS = {1, 2}) + 1
-TAIL_EPOCHS = 3
+# every replayed behaviour ends with the driver event "Tail" (harness/staking.go: tail): epoch-closing blocks
+# until every dogfood queue and pending list has fired, then a power change of every operator, then two
+# more epoch-closing blocks, so that the validator updates after the last prune are observed as well
 
 # deviations of spec/Staking.tla that describe the CURRENT tree (strict lane / generation)
 DEVS = ["ALWAYS", "L17"]
@@ -44,7 +43,9 @@ ASSUMPTIONS = [
     "blocks are app.EndBlocker + app.BeginBlocker on the deliver-state context with chosen block times (ctx-mode, no Commit)",
     "voting power input: one asset with price 1; the real operator epoch hook computes the USD values (C05 owns the formula)",
     "no slashing execution in this family (shares stay 1:1); jailing through dogfood's StakingKeeper interface",
-    "every behaviour is continued by %d epoch-closing blocks; delegation.EndBlock's release of matured, unheld records is modelled only as the disappearance of the record (its credit belongs to C03)" % TAIL_EPOCHS,
+    "every behaviour is continued by a tail (driver event Tail, expanded into ordinary logged events): epoch-closing blocks until every "
+    "dogfood queue and pending list is empty, then one power unit delegated to every operator, then two more epoch-closing blocks; "
+    "delegation.EndBlock's release of matured, unheld records is modelled only as the disappearance of the record (its credit belongs to C03)",
     "a behaviour ends when CometBFT refuses an update list (the chain would halt)",
 ]
 
@@ -234,7 +235,7 @@ def _leads(dm, cfg, timeout):
 
 def _with_tail(b):
     h = json.loads(b)
-    return json.dumps(h + [{"ev": "Block", "a": {"adv": 1}} for _ in range(TAIL_EPOCHS)])
+    return json.dumps(h + [{"ev": "Tail", "a": {}}])
 
 
 def _cover(dm, cfg, timeout):
